@@ -22,8 +22,10 @@ Csum(s) == LET S[i \in 0..Len(s)] == IF i = 0 THEN 0 ELSE (S[i - 1] + s[i] * (((
 \*  TXT: character strings decoded into the receiver's 4096-byte text buffer: one codec letter + 4095 characters;
 \*  CNAME / A: one host name of at most 253 characters: minus ".xy", the codec letter and a dot every 57 characters = 245
 Bits(c) == CASE c = "T" -> 5 [] c = "S" -> 6 [] c = "U" -> 6 [] c = "V" -> 7 [] OTHER -> 8
+\* (a session whose downstream codec is Raw gets host-name answers in Base32: a name cannot carry raw bytes)
+HBits(c) == IF c = "R" THEN 5 ELSE Bits(c)
 Fits(e) == CASE e.qt = 16 -> e.len <= (4095 * Bits(e.codec)) \div 8
-             [] e.qt \in {5, 1} -> e.len <= (245 * Bits(e.codec)) \div 8
+             [] e.qt \in {5, 1} -> e.len <= (245 * HBits(e.codec)) \div 8
              [] OTHER -> e.len <= 4096
 
 VARIABLE minNonExact        \* smallest payload length of the current sweep that was not delivered exactly
